@@ -85,6 +85,19 @@ void scenariosArchives(Emitter& e)
 			std::vector<ref::VolMember> ms; for (auto p : { std::make_pair("eden", pay(2, 0x50)), std::make_pair("edeN.ma", pay(1, 0x60)), std::make_pair("eden.map", pay(3, 0x10)), std::make_pair("eden.txt", pay(4, 0x20)) }) { ref::VolMember m; m.name = p.first; m.stored = p.second; ms.push_back(m); }
 			e.emit("vol-same-stem", "reference", ref::encodeVol(ms).bytes);
 		}
+		{
+			// names that differ only in letter case, in two directories: whatever the listing order, the outcome is the same (a refusal)
+			mc::writeFile("sub/Readme.txt", pay(3, 0x31)); mc::writeFile("README.TXT", pay(4, 0x41));
+			std::vector<std::string> perm = { "README.TXT", "a.txt", "sub/Readme.txt" };
+			int k = 0;
+			do {
+				std::vector<uint8_t> outcome = { 'r', 'e', 'f', 'u', 's', 'e', 'd' };
+				::unlink("ot.vol");
+				try { Archive::VolFile::CreateArchive("ot.vol", perm); outcome = mc::readFile("ot.vol"); } catch (const std::exception&) {}
+				e.emit("vol-names-equal-ignoring-case", "perm" + std::to_string(k++), outcome);
+			} while (std::next_permutation(perm.begin(), perm.end()));
+			e.emit("vol-names-equal-ignoring-case", "reference", std::vector<uint8_t>{ 'r', 'e', 'f', 'u', 's', 'e', 'd' });
+		}
 		// reading back: listing and extraction
 		Archive::VolFile v("o.vol");
 		std::string listing; for (std::size_t i = 0; i < v.GetCount(); ++i) listing += v.GetName(i) + ":" + std::to_string(v.GetSize(i)) + ":" + std::to_string(int(v.GetCompressionCode(i))) + ";";
